@@ -394,3 +394,43 @@ class CondEval:
         if len(refs) == 1:
             return self.string_arg(env[refs[0]["decl"]], {})
         return None
+
+
+def no_state_between_calls(chk, fq, rule):
+    """A function whose result must depend on its arguments only keeps nothing between calls: no static (or thread_local) local that is
+    mutable or initialised from an argument, no assignment to a global.  A memo is accepted only if the stored result is handed out
+    under a test that compares EVERY parameter directly (p == s, or container.size() == p) with a static local."""
+    stat = []
+    for x in A.walk(fq["body"]):
+        if x.get("k") == "DeclStmt":
+            for d in x.get("decls", []):
+                if d.get("static_local"):
+                    dep = [y for y in A.walk(d["init"]) if y.get("k") == "DeclRefExpr" and y.get("dkind") in ("ParmVar", "Var") and y.get("local")] if isinstance(d.get("init"), dict) else []
+                    if not d.get("is_const") or dep:
+                        stat.append(d["name"])
+    gl = []
+    for y, lhs, op, rhs in A.assignments_in(fq["body"]):
+        dl = A.declref(lhs)
+        if dl is not None and dl.get("dkind") == "Var" and not dl.get("local"):
+            gl.append(dl["qname"])
+    if stat and not gl:
+        keyed = set()
+        for y in A.walk(fq["body"]):
+            if y.get("k") == "BinaryOperator" and y.get("op") == "==":
+                for a_, b_ in ((y["c"][0], y["c"][1]), (y["c"][1], y["c"][0])):
+                    pa_, sb_ = A.declref(a_), A.strip(b_)
+                    if pa_ is not None and pa_.get("dkind") == "ParmVar":
+                        sd_ = A.declref(sb_)
+                        if sd_ is not None and sd_.get("name") in stat:
+                            keyed.add(pa_["name"])
+                        elif sb_.get("k") == "CXXMemberCallExpr" and (sb_.get("callee") or "").endswith("::size") and \
+                                (A.declref(A.call_object(sb_)) or {}).get("name") in stat:
+                            keyed.add(pa_["name"])
+        outs = {p_["name"] for p_ in fq["params"] if "*" in (p_.get("ctype") or "") and "const" not in (p_.get("ctype") or "").split("*")[0]}
+        if keyed >= {p_["name"] for p_ in fq["params"]} - outs:
+            stat = []
+    chk.used(fq)
+    return chk.check(not stat and not gl, rule, fq.where,
+                     "%s keeps nothing between calls: no static local that is mutable or initialised from an argument, no assignment to a global%s"
+                     % (fq["qname"].replace("vfps::", ""), "" if not (stat or gl) else " (static: %s, globals: %s)" % (stat, gl)),
+                     "%s:state-between-calls:%s" % (fq["qname"].replace("vfps::", ""), sorted(stat + gl)))
